@@ -85,6 +85,15 @@ const (
 	fmtEncode  = "err = (%ASGN).EncodeBebop(w)\n"
 )
 
+// Nested messages and unions are skipped by the length on the wire, not by the size of what
+// this version of the schema understood: a newer writer may have sent fields we ignored.
+const (
+	fmtCheckMessageLen   = "if len(buf[at:]) < 4 || len(buf[at:])-4 < int(iohelp.ReadUint32Bytes(buf[at:])) {\n\treturn io.ErrUnexpectedEOF\n}\n"
+	fmtCheckUnionLen     = "if len(buf[at:]) < 5 || len(buf[at:])-5 < int(iohelp.ReadUint32Bytes(buf[at:])) {\n\treturn io.ErrUnexpectedEOF\n}\n"
+	fmtAddMessageLenToAt = "at += 4 + int(iohelp.ReadUint32Bytes(buf[at:]))\n"
+	fmtAddUnionLenToAt   = "at += 5 + int(iohelp.ReadUint32Bytes(buf[at:]))\n"
+)
+
 var fixedSizeTypes = map[string]uint8{
 	typeBool:    1,
 	typeByte:    1,
@@ -338,8 +347,8 @@ func (f File) typeByteReaders(gs GenerateSettings) map[string]string {
 		out[st.Name+hintSafeKey] = makeFormat(st.Namespace, gs) + fmtErrReturn + "\n" + fmtAddSizeToAt
 	}
 	for _, msg := range f.Messages {
-		out[msg.Name] = mustMakeFormat(msg.Namespace, gs) + fmtAddSizeToAt
-		out[msg.Name+hintSafeKey] = makeFormat(msg.Namespace, gs) + fmtErrReturn + "\n" + fmtAddSizeToAt
+		out[msg.Name] = mustMakeFormat(msg.Namespace, gs) + fmtAddMessageLenToAt
+		out[msg.Name+hintSafeKey] = fmtCheckMessageLen + makeFormat(msg.Namespace, gs) + fmtErrReturn + "\n" + fmtAddMessageLenToAt
 	}
 	for _, union := range f.Unions {
 		uout := union.typeByteReaders(gs)
@@ -352,8 +361,8 @@ func (f File) typeByteReaders(gs GenerateSettings) map[string]string {
 
 func (u Union) typeByteReaders(settings GenerateSettings) map[string]string {
 	out := map[string]string{}
-	out[u.Name] = mustMakeFormat(u.Namespace, settings) + fmtAddSizeToAt
-	out[u.Name+hintSafeKey] = makeFormat(u.Namespace, settings) + fmtErrReturn + "\n" + fmtAddSizeToAt
+	out[u.Name] = mustMakeFormat(u.Namespace, settings) + fmtAddUnionLenToAt
+	out[u.Name+hintSafeKey] = fmtCheckUnionLen + makeFormat(u.Namespace, settings) + fmtErrReturn + "\n" + fmtAddUnionLenToAt
 	for _, ufd := range u.Fields {
 		if ufd.Struct != nil {
 			st := ufd.Struct
@@ -362,8 +371,8 @@ func (u Union) typeByteReaders(settings GenerateSettings) map[string]string {
 		}
 		if ufd.Message != nil {
 			msg := ufd.Message
-			out[msg.Name] = mustMakeFormat(msg.Namespace, settings) + fmtAddSizeToAt
-			out[msg.Name+hintSafeKey] = makeFormat(msg.Namespace, settings) + fmtErrReturn + "\n" + fmtAddSizeToAt
+			out[msg.Name] = mustMakeFormat(msg.Namespace, settings) + fmtAddMessageLenToAt
+			out[msg.Name+hintSafeKey] = fmtCheckMessageLen + makeFormat(msg.Namespace, settings) + fmtErrReturn + "\n" + fmtAddMessageLenToAt
 		}
 	}
 	return out
